@@ -16,8 +16,8 @@ CORE = ['queue', 'activation', 'handlers', 'lifecycle', 'rest', 'harness', 'othe
 
 FAMILIES = {
     'C01': dict(
-        gens=[('core', dict(), 1.0)],
-        facets=CORE + ['results', 'recursion', 'dispatch', 'capacity', 'lock', 'await'],
+        gens=[('core', dict(), 0.6), ('core', dict(p_redispatch=0.25, p_raise=0.25, p_timeout=0.2, nb=(1, 2)), 0.4)],
+        facets=CORE + ['results', 'recursion', 'dispatch', 'capacity', 'lock', 'await', 'timeout'],
         rule='random ranked-dispatch scenarios (1-3 buses, serial/parallel, 1-6 handlers incl. wildcard, duplicate-key and '
              'forwarding registrations, sync/async/raising handlers, nested dispatch, in-handler awaits, re-dispatch, 1-2 external tasks); '
              'non-trivial: at least two handler instances are scheduled and some handler suspends (await or sleep); distinct: hash of the label sequence'),
@@ -103,6 +103,8 @@ FAMILIES = {
         gens=[('core', dict(p_expect=0.3, ntasks=(1, 3), tasklen=(2, 7)), 1.0)],
         facets=['expect', 'registry', 'handlers', 'lifecycle', 'activation', 'harness', 'other', 'timeout', 'results'],
         rule='event streams x include/exclude/raising predicates x timeouts x 1-3 concurrent expect() calls; non-trivial: an expect() is pending while an event of its type is processed'),
+    # not a property: scenario family used by tools/mine_witness.py for the parallel-bus findings
+    'XPAR': dict(gens=[('core', dict(p_parallel=0.9, nb=(1, 2), proglen=(2, 6), nh=(2, 7)), 1.0)], facets=CORE, rule='mining only'),
     'C19': dict(engine='eng_retry', facets=[], rule='see eng_retry.py'),
     'C20': dict(engine='eng_retry', facets=[], rule='see eng_retry.py'),
     'C12': dict(engine='eng_results', facets=[], rule='see eng_results.py'),
